@@ -23,7 +23,7 @@ RULE = (
     "ret_arr with generated operands, incl. faulting ones), receive a keep pair (recv_epr + scripted response), the network stack taking a "
     "physical qubit ahead of delivery, subroutines that stay suspended in a wait while other applications run (start / deliver / resume "
     "as separate steps, up to three suspended at once, on two sockets, also into a virtual qubit that is still allocated so that the response has to wait), all through "
-    "serialised messages; invariants after every step (incl. the position lookup instructions use for every mapped qubit).  Thorough adds exhaustive enumeration of all histories to depth 5 "
+    "serialised messages (plus two fixed histories in which one subroutine stays suspended while another application runs 300 / 600 subroutines); invariants after every step (incl. the position lookup instructions use for every mapped qubit).  Thorough adds exhaustive enumeration of all histories to depth 5 "
     "over a reduced alphabet.  Non-trivial = >=2 applications alive at once and >=1 stop; distinct by history hash"
 )
 ASSUMPTIONS = [
@@ -527,6 +527,16 @@ def shard(ctx: Ctx) -> None:
         ctx.run_machine(make_machine(ctx, stt), n, steps)
     except Failure as f:
         ctx.fail(f)
+    if ctx.shard == 0:
+        # one long fixed history: a subroutine of application 0 stays suspended in a wait while application 1 runs several hundred
+        # subroutines (subroutine ids, message ids and other counters go well past 256 and 512); then the pair arrives and it resumes
+        for n_between in (300, 600):
+            hist = [["init", 0, 2], ["init", 1, 2], ["epr_start", 0, 0, 0]] + [["sub", 1, [["setreg", "R0", i % 7], ["addreg", "R0", 1]]] for i in range(n_between)] + [["epr_deliver", 0], ["epr_resume", 0],
+                    ["sub", 0, [["setreg", "R0", 3], ["retreg", "R0"]]]]
+            f_ = replay({"history": hist})
+            if f_ is not None:
+                ctx.fail(Failure(f_.signature, {"history": hist}, f_.message))
+            stt.case(["long-suspension", n_between], True, ["fixed:suspended-across-many-subroutines"])
     if ctx.thorough():
         alphabet = [["init", 0, 1], ["init", 1, 2], ["stop", 0], ["stop", 1], ["sub", 0, [["qalloc", 0]]], ["sub", 1, [["qalloc", 0]]], ["sub", 1, [["qalloc", 1]]],
                     ["sub", 0, [["qfree", 0]]], ["sub", 1, [["qfree", 0]]], ["epr", 0, 0], ["epr", 1, 1], ["sub", 0, [["setreg", "R0", 3], ["retreg", "R0"]]]]
